@@ -123,7 +123,8 @@ if __name__ == "__main__":
         ok, info = confirm(sys.argv[2], sys.argv[3], sys.argv[4] if len(sys.argv) > 4 else "0")
         print("CONFIRMED" if ok else "REJECTED", sys.argv[3], json.dumps(info)[:700])
     elif cmd == "detect":
-        ids = sys.argv[2:] or sorted(os.listdir(SEEDED))
+        import re
+        ids = sys.argv[2:] or sorted(x for x in os.listdir(SEEDED) if re.match(r"^C\d\d-\d+$", x))
         import concurrent.futures
         with concurrent.futures.ThreadPoolExecutor(max_workers=8) as ex:
             futs = {sid: ex.submit(detect, sid) for sid in ids if os.path.isdir(os.path.join(SEEDED, sid))}
